@@ -2,7 +2,10 @@ package main
 
 import (
 	"context"
+	"fmt"
 	"io"
+	"os"
+	"runtime/debug"
 	"strconv"
 	"strings"
 	"time"
@@ -65,6 +68,9 @@ func opSServe(a []string) []string {
 		defer close(done)
 		defer func() {
 			if r := recover(); r != nil {
+				if os.Getenv("VERIF_DEBUG") != "" {
+					fmt.Fprintf(os.Stderr, "panic: %v\n%s\n", r, debug.Stack())
+				}
 				seen = append(seen, "PANIC")
 			}
 		}()
@@ -118,6 +124,14 @@ func genC14(tier string, rng *Rng) {
 				ch = append(ch, probe...)
 				emitCase(ch, rs, stop, "eof")
 			}
+		}
+	}
+	// malformed framing in the middle of a streamed body: the leftover bytes must never become a request
+	for _, bad := range []string{"10000000000000000", "1000000000000000", "zz", "5;ext=1", "-1", ""} {
+		s := []byte("POST /c HTTP/1.1\r\nHost: h\r\nTransfer-Encoding: chunked\r\n\r\n1\r\na\r\n" + bad + "\r\n\r\nGET /smuggled HTTP/1.1\r\nHost: x\r\n\r\n")
+		s = append(s, probe...)
+		for _, stop := range []int{0, 1, 2, 50} {
+			emitCase(s, 16, stop, "eof")
 		}
 	}
 	for i := 0; i < n; i++ {
